@@ -131,6 +131,11 @@ var (
 	}
 )
 
+const (
+	perfect2Value = 2
+	octaveDegrees = 7
+)
+
 func (d Degree) Semitone() (Semitone, bool) {
 	if d.Value == 0 {
 		return 0, false
@@ -158,12 +163,15 @@ func (d Degree) Semitone() (Semitone, bool) {
 		return 0, false
 	}
 
+	// compound interval: take off whole octaves (7 degrees each, perfect1 is
+	// identical) until a simple interval 2..8 is left
+	octaves := (d.Value - perfect2Value) / octaveDegrees
 	e := Degree{
-		Value: d.Value - perfect8.Value + 1, // perfect1 is identical
+		Value: d.Value - octaves*octaveDegrees,
 		Name:  d.Name,
 	}
 	if v, ok := e.Semitone(); ok {
-		return v + degreeSemitoneMap[perfect8], true
+		return v + Semitone(octaves)*degreeSemitoneMap[perfect8], true
 	}
 	return 0, false
 }
